@@ -1,10 +1,59 @@
 /-
   C04 (the law part)
-  "… tolerance-based numeric comparison, … order-preserving de-duplicating set operations,
-   get / isset with defaults …"
+  "… the value returned equals the value defined by the language's semantics: IEEE double
+   arithmetic, tolerance-based numeric comparison, exact string / bool / time comparison,
+   rune-counted length, order-preserving de-duplicating set operations, get / isset with defaults,
+   string conversion, and time literals / strtotime for absolute date-time forms.  Composite results
+   match element by element."
 
-  Laws that follow from the definitions of the built-ins (`Yae/Model/Builtins.lean`,
-  `applyBuiltin`) by pure logic.  Facts about IEEE arithmetic are hypotheses (`FloatFacts`).
+  The bodies of the model's built-ins (`Yae/Model/Builtins.lean`, `applyBuiltin`) ARE the formal
+  semantics (tied to the Go code by the differential stream over every built-in).  This file proves
+  the LAWS the property names, from those definitions, by pure logic.  Facts about IEEE arithmetic
+  are hypotheses (`FloatFacts`); only the first section uses them.
+
+  Sections, and what each establishes
+    numeric comparison      `==`/`!=`/`<`… on numbers are the tolerance tests (see the remark below)
+    set operations          `union`/`intersect`/`diff`: first occurrences, order, membership
+    get / isset             with defaults
+    rune-counted length     `len` = number of code points / members / entries (`len_law`)
+    string conversion       the equations of `string()` (`string_prim`, `string_list`, `string_obj`,
+                            `string_map`), `string(x) = String()` on values without strings,
+                            functions, maybes, out-of-order objects (`string_eq_String`), and
+                            kernel-checked differences for each excluded case
+    exact comparison        `==`/`!=` on strings and bools are (in)equality; on instants: seconds and
+                            nanoseconds, whatever the zone; `<`… the order of instants (`time_cmp`,
+                            `time_cmp_ns`).  (There is no `<` on strings or bools in the language.)
+    numeric literals        radix forms exactly (`radix_literal`, value `< 2^63`, else rejected);
+                            integer form = `float64` of the number written, exact below `2^53`
+                            (`int_literal`, `int_literal_exact`); float forms: decomposition into
+                            mantissa and decimal exponent (`float_literal`)
+    string literals         item-by-item decoding of every word of the string pattern (`str_literal`),
+                            raw strings (`raw_literal`)
+    absolute date-times     `civilFromDays` inverts the naive day count of `Yae/Spec/Civil.lean`
+                            (`civil_round_trip`, `day_round_trip`); an absolute form is displayed as
+                            itself (`strtotime_absolute`, `time_literal_absolute`); the text read back
+                            gives the instant (`time_text_read_back`, `time_text_reader`)
+
+  What is NOT proved (it is the definition of the model, compared with Go by the differential
+  stream): that `Num.packRound` / `Num.ratToBits` / `Num.decimalToBits` round correctly (so
+  "nearest double" in the literal theorems is by definition); that `+ - * / ^` are the IEEE
+  operations (`Float` is opaque); what `timelib.Strtotime` answers (a table, `Externs.strtotime`:
+  `strtotime_absolute` assumes the entry is the civil epoch of the form); `Float.ofNat` in `len`.
+
+  CORNERS made explicit (none is a violation of C04: the programs concerned are REJECTED, not
+  accepted with a wrong value, or the text promises nothing about them; the Go code agrees with the
+  model on each one, stream `num`), each kernel-checked here or in the helper
+    * `string()`: strings inside lists / as map VALUES are bare but map KEYS keep their quotes
+      (`map_keys_stay_quoted`); objects in declaration order, `String()` in name order
+      (`obj_order_differs`);
+    * lexemes that are not numbers for `parseNum` (syntax error): radix literals `≥ 2^63`, `1.2.3`,
+      `1e2e3` (`numeric_lexemes_rejected`); integer / float literals whose `float64` is `+Inf`
+      (`int_literal`, `Num.decimalToBits` answering `none`);
+    * string literals of the documented grammar rejected by `strconv.Unquote`: `\/`, a raw newline,
+      `\uD800..\uDFFF` (`str_literal_rejected`: exactly these);
+    * raw strings are NOT verbatim: carriage returns are dropped (`raw_literal_verbatim`: only that);
+    * the calendar is wrong before 0000-03-01 (`civil_round_trip_fails_before_march_0`, the known
+      limit `C18.needs_date_from_march_of_year_0`).
 
   Remarks on the numeric comparisons (`val/num.go`):
     numEQ x y := |x - y| < ε        numNE x y := |x - y| ≥ ε
@@ -17,6 +66,11 @@
 -/
 import Yae.Proofs.ValRelSet
 import Yae.Proofs.ValRelGet
+import Yae.Proofs.C04Stringify
+import Yae.Proofs.C04TimeRead
+import Yae.Proofs.C04Num
+import Yae.Proofs.C04Str
+import Yae.Model.Eval
 namespace Yae.C04
 open Yae
 
@@ -184,6 +238,423 @@ theorem get_maybe (ext : Externs) (el : Ty) (x dflt : Val) :
     applyBuiltin ext .GET_MAYBE [.nothing el, dflt] = .ok (dflt, []) :=
   ⟨get_maybe_just ext el x dflt, get_maybe_nothing ext el dflt⟩
 
+/-! ## rune-counted length -/
+
+theorem valList_length : ∀ vs : ValList, vs.length = vs.toList.length
+  | .nil => rfl
+  | .cons _ vs => by simp [ValList.length, ValList.toList, valList_length vs]
+theorem entryList_length : ∀ es : EntryList, es.length = es.toList.length
+  | .nil => rfl
+  | .cons _ _ _ es => by simp [EntryList.length, EntryList.toList, entryList_length es]
+
+/-- `len(s)` of a string is the number of its Unicode code points (`String.length` = the length
+of the list of `Char`s), whatever their UTF-8 size; `len` of a list / map is the number of
+members / entries. -/
+theorem len_law (ext : Externs) :
+    (∀ s : String, applyBuiltin ext .LEN_STR [.str s] = .ok (.num (Float.ofNat s.toList.length), [])) ∧
+    (∀ ty vs, applyBuiltin ext .LEN_LIST [.list ty vs] = .ok (.num (Float.ofNat vs.toList.length), [])) ∧
+    (∀ ty es, applyBuiltin ext .LEN_MAP [.map ty es] = .ok (.num (Float.ofNat es.toList.length), [])) := by
+  have hl := valList_length
+  have he := entryList_length
+  refine ⟨fun s => ?_, fun ty vs => ?_, fun ty es => ?_⟩
+  · simp only [applyBuiltin, String.length_toList]
+  · simp only [applyBuiltin, hl]
+  · simp only [applyBuiltin, he]
+
+/-- the count is additive on concatenation and 1 for every single character, also one that takes
+four bytes in UTF-8 -/
+theorem len_runes (s t : String) (c : Char) :
+    (s ++ t).length = s.length + t.length ∧ (String.singleton c).length = 1 := by
+  refine ⟨String.length_append s t, ?_⟩
+  rw [← String.length_toList]; simp
+
+/-- never the UTF-8 byte count: `len("中文é")` is 3, the text is 8 bytes long -/
+example : "中文é".length = 3 ∧ "中文é".utf8ByteSize = 8 ∧ "中文é".toList.length = 3 := by decide
+example (ext : Externs) :
+    applyBuiltin ext .LEN_STR [.str "中文é"] = .ok (.num (Float.ofNat "中文é".toList.length), []) :=
+  (len_law ext).1 _
+
+/-! ## string conversion -/
+
+/-- `string(x)` is `fun.stringify` -/
+theorem string_builtin (ext : Externs) (x : Val) :
+    applyBuiltin ext .STRING_ANY [x] = .ok (.str x.stringify, []) := by
+  simp only [applyBuiltin]
+
+/-- of a string: the string itself (no quotes); of a bool: `true` / `false`; of a number: its
+rendering `renderNum` (integer-valued inside the int64 range: `FormatInt`, else the shortest
+round-trip `FormatFloat(x,'f',-1,64)`); of an instant: `Time.String()` -/
+theorem string_prim (s : String) (x : Float) (t : TimeV) :
+    (Val.str s).stringify = s ∧ (Val.bool true).stringify = "true" ∧
+    (Val.bool false).stringify = "false" ∧ (Val.num x).stringify = Num.renderNum x ∧
+    (Val.time t).stringify = t.render :=
+  ⟨rfl, rfl, rfl, rfl, rfl⟩
+
+/-- of a list: the members' conversions separated by `, ` in brackets (strings inside are NOT
+quoted: the recursion is `stringify` itself); e.g. `string([a, b]) = "[" a ", " b "]"` -/
+theorem string_list (ty : Ty) (vs : ValList) (a b : Val) :
+    Val.stringify (.list ty vs) = "[" ++ ", ".intercalate (vs.toList.map Val.stringify) ++ "]" ∧
+    Val.stringify (.list ty (.cons a (.cons b .nil))) =
+      "[" ++ a.stringify ++ ", " ++ b.stringify ++ "]" ∧
+    Val.stringify (.list ty .nil) = "[]" :=
+  ⟨stringify_list ty vs, stringify_list_two ty a b, by simp [Val.stringify, stringifyVals, joinStr]⟩
+
+/-- of an object: `name: conversion` of the fields in DECLARATION order, in braces -/
+theorem string_obj (fs : FieldList) (vs : ValList) :
+    Val.stringify (.obj (.obj fs) vs) =
+      "{" ++ ", ".intercalate ((List.zip fs.names (vs.toList.map Val.stringify)).map
+        fun kv => kv.1 ++ ": " ++ kv.2) ++ "}" :=
+  stringify_obj fs vs
+
+/-- of a map: `[:]` when empty, else `key text: conversion` of the entries sorted by key text
+(the key text is `Key()`: string keys ARE quoted there, `map_keys_stay_quoted`) -/
+theorem string_map (ty : Ty) (es : EntryList) :
+    Val.stringify (.map ty es) =
+      if es.toList = [] then "[:]" else
+        "[" ++ ", ".intercalate ((sortBy (fun a b => decide (a.1 < b.1))
+          (es.toList.map fun e => (e.2.1, e.2.2.stringify))).map fun kv => kv.1 ++ ": " ++ kv.2)
+          ++ "]" :=
+  stringify_map' ty es
+
+/-- **`string(x)` and `(*Val).String()` coincide** on values hereditarily free of strings,
+function values, maybes and objects whose fields are not declared in name order
+(`Val.LocalSameText`); they differ in each of these cases: `string_not_quoted`,
+`obj_order_differs`, `maybe_fn_differ`. -/
+theorem string_eq_String (v : Val) (h : v.All Val.LocalSameText) : v.stringify = v.render :=
+  stringify_eq_render v h
+
+/-! ## exact comparison of strings, bools and instants -/
+
+/-- `==` / `!=` on strings and bools: equality, and its negation -/
+theorem eq_ne_exact (ext : Externs) :
+    (∀ x y : String, applyBuiltin ext .EQ_STR_STR [.str x, .str y] = .ok (.bool (decide (x = y)), []) ∧
+      applyBuiltin ext .NE_STR_STR [.str x, .str y] = .ok (.bool (!decide (x = y)), [])) ∧
+    (∀ x y : Bool, applyBuiltin ext .EQ_BOOL_BOOL [.bool x, .bool y] = .ok (.bool (decide (x = y)), []) ∧
+      applyBuiltin ext .NE_BOOL_BOOL [.bool x, .bool y] = .ok (.bool (!decide (x = y)), [])) := by
+  refine ⟨fun x y => ⟨?_, ?_⟩, fun x y => ⟨?_, ?_⟩⟩
+  · simp only [applyBuiltin]; rfl
+  · simp only [applyBuiltin]; rfl
+  · simp only [applyBuiltin]; cases x <;> cases y <;> rfl
+  · simp only [applyBuiltin]; cases x <;> cases y <;> rfl
+
+/-- the instant of a time value in nanoseconds since the epoch -/
+def instantNs (t : TimeV) : Int := t.sec * 1000000000 + t.nsec
+
+/-- the comparisons of instants: `==` is equality of seconds and nanoseconds, `<` their
+lexicographic order; zone offset and zone name play no part.  `!=` is the negation of `==`,
+`<=` is "`<` or `==`", `>` / `>=` are `<` / `<=` with the operands exchanged. -/
+theorem time_cmp (ext : Externs) (x y : TimeV) :
+    applyBuiltin ext .EQ_TIME_TIME [.time x, .time y] =
+      .ok (.bool (decide (x.sec = y.sec ∧ x.nsec = y.nsec)), []) ∧
+    applyBuiltin ext .NE_TIME_TIME [.time x, .time y] =
+      .ok (.bool (!decide (x.sec = y.sec ∧ x.nsec = y.nsec)), []) ∧
+    applyBuiltin ext .LT_TIME_TIME [.time x, .time y] =
+      .ok (.bool (decide (x.sec < y.sec ∨ (x.sec = y.sec ∧ x.nsec < y.nsec))), []) ∧
+    applyBuiltin ext .LE_TIME_TIME [.time x, .time y] =
+      .ok (.bool (decide (x.sec < y.sec ∨ (x.sec = y.sec ∧ x.nsec ≤ y.nsec))), []) ∧
+    applyBuiltin ext .GT_TIME_TIME [.time x, .time y] =
+      .ok (.bool (decide (y.sec < x.sec ∨ (y.sec = x.sec ∧ y.nsec < x.nsec))), []) ∧
+    applyBuiltin ext .GE_TIME_TIME [.time x, .time y] =
+      .ok (.bool (decide (y.sec < x.sec ∨ (y.sec = x.sec ∧ y.nsec ≤ x.nsec))), []) := by
+  refine ⟨?_, ?_, ?_, ?_, ?_, ?_⟩ <;> simp only [applyBuiltin] <;> congr 3 <;>
+    simp only [TimeV.equal, TimeV.after, TimeV.before] <;>
+    rw [Bool.eq_iff_iff] <;> simp <;> omega
+
+/-- with nanoseconds below `10^9` (every time value the evaluator builds) the order is the order
+of the instants counted in nanoseconds -/
+theorem time_cmp_ns (ext : Externs) (x y : TimeV) (hx : x.nsec < 1000000000)
+    (hy : y.nsec < 1000000000) :
+    applyBuiltin ext .EQ_TIME_TIME [.time x, .time y] =
+      .ok (.bool (decide (instantNs x = instantNs y)), []) ∧
+    applyBuiltin ext .LT_TIME_TIME [.time x, .time y] =
+      .ok (.bool (decide (instantNs x < instantNs y)), []) ∧
+    applyBuiltin ext .LE_TIME_TIME [.time x, .time y] =
+      .ok (.bool (decide (instantNs x ≤ instantNs y)), []) ∧
+    applyBuiltin ext .GT_TIME_TIME [.time x, .time y] =
+      .ok (.bool (decide (instantNs x > instantNs y)), []) ∧
+    applyBuiltin ext .GE_TIME_TIME [.time x, .time y] =
+      .ok (.bool (decide (instantNs x ≥ instantNs y)), []) := by
+  obtain ⟨h1, _, h3, h4, h5, h6⟩ := time_cmp ext x y
+  rw [h1, h3, h4, h5, h6]
+  unfold instantNs
+  refine ⟨?_, ?_, ?_, ?_, ?_⟩ <;> congr 3 <;> rw [decide_eq_decide] <;> omega
+
+/-- noon UTC and 14:00 at +02:00 are `==` (and neither `<` the other): the zone is not compared -/
+example (ext : Externs) :
+    applyBuiltin ext .EQ_TIME_TIME [.time ⟨43200, 0, 0, "UTC"⟩, .time ⟨43200, 0, 7200, "CEST"⟩] =
+      .ok (.bool true, []) ∧
+    applyBuiltin ext .LT_TIME_TIME [.time ⟨43200, 0, 0, "UTC"⟩, .time ⟨43200, 0, 7200, "CEST"⟩] =
+      .ok (.bool false, []) ∧
+    applyBuiltin ext .LT_TIME_TIME [.time ⟨43200, 5, 0, "UTC"⟩, .time ⟨43200, 6, 7200, "CEST"⟩] =
+      .ok (.bool true, []) := by
+  refine ⟨?_, ?_, ?_⟩ <;> simp [applyBuiltin, TimeV.equal, TimeV.before]
+
+/-! ## numeric literal decoding (`parseNum`, the `.num` nud of the parser) -/
+
+/-- **radix forms, exactly**: `0x` / `0b` / `0o` followed by digits of that base denotes
+`float64(v)`, `v` the positional value of the digits (`Num.valueInBase`), when `v < 2^63`; from
+`2^63` on the literal is REJECTED (`strconv.ParseInt` range error; a finding: such a word is a
+lexeme of the pattern, `Num.radix_overflow_instance`).  `Num.intToFloat v` is the model's
+`float64(v)`: the nearest binary64, ties to even, by definition (`Num.packRound`). -/
+theorem radix_literal {letter : Char} {base : Nat} (hl : Num.radixOf letter base)
+    {ds : List Char} (h : Num.digitsOK base ds) :
+    Num.parseNumLit (String.ofList ('0' :: letter :: ds)) =
+      if Num.valueInBase base ds < 2 ^ 63 then some (Num.intToFloat (Num.valueInBase base ds))
+      else none :=
+  Num.parseNumLit_radix hl h
+
+/-- below `2^53` nothing is rounded: the double the literal denotes converts to the int64 `v` and
+prints as `v` in decimal -/
+theorem radix_literal_exact {letter : Char} {base : Nat} (hl : Num.radixOf letter base)
+    {ds : List Char} (h : Num.digitsOK base ds) (hv : Num.valueInBase base ds < 2 ^ 53) :
+    ∃ b, Num.parseNumLitBits (String.ofList ('0' :: letter :: ds)) = some b ∧
+      Num.toInt64Bits b = Num.valueInBase base ds ∧
+      Num.renderNumBits b = Num.fmtNat (Num.valueInBase base ds) :=
+  Num.radix_exact hl h hv
+
+/-- every word of the three radix patterns of the lexer has the shape `radix_literal` speaks of -/
+theorem radix_lexemes {w : List Char} :
+    ((reOf .hex).Matches w → ∃ ds, w = '0' :: 'x' :: ds ∧ Num.digitsOK 16 ds) ∧
+    ((reOf .bin).Matches w → ∃ ds, w = '0' :: 'b' :: ds ∧ Num.digitsOK 2 ds) ∧
+    ((reOf .oct).Matches w → ∃ ds, w = '0' :: 'o' :: ds ∧ Num.digitsOK 8 ds) :=
+  ⟨Num.hex_shape, Num.bin_shape, Num.oct_shape⟩
+
+example : Num.parseNumLit "0xff" = some (Num.intToFloat 255) := by
+  have := radix_literal (letter := 'x') (base := 16) (.inl ⟨rfl, rfl⟩) (ds := ['f', 'f']) (by decide)
+  rw [if_pos (by decide)] at this
+  exact this
+
+/-- **the integer form** `(?:0|[1-9][0-9]*)`: every word `w` of the pattern denotes
+`float64(n)`, `n = Num.digitsVal w` the number written, i.e. (by definition of the model,
+`Num.natToBits n = Num.packRound n false 0`) the binary64 nearest to `n`, ties to even; it is
+rejected when that is `+Inf` (numbers from about 1.8·10^308 on).  Correct rounding itself is the
+DEFINITION of `packRound`, tied to Go by the differential stream, not a theorem here. -/
+theorem int_literal {w : List Char} (h : (reOf .int).Matches w) :
+    Num.parseNumLitBits (String.ofList w) =
+      if Num.natToBits (Num.digitsVal w) = Num.infBits then none
+      else some (Num.natToBits (Num.digitsVal w)) :=
+  Num.int_lexeme_value h
+
+/-- below `2^53` the integer literal is exact: the double converts to the int64 `n`, prints as `n`,
+and is `float64(n)` -/
+theorem int_literal_exact (ds : List Char) (hne : ds ≠ []) (hds : ∀ c ∈ ds, Num.isDigit c = true)
+    (hv : Num.digitsVal ds < 2 ^ 53) :
+    Num.parseNumLit (String.ofList ds) = some (Num.intToFloat (Num.digitsVal ds)) ∧
+    ∃ b, Num.parseNumLitBits (String.ofList ds) = some b ∧
+      Num.toInt64Bits b = Num.digitsVal ds ∧ Num.renderNumBits b = Num.fmtNat (Num.digitsVal ds) :=
+  ⟨Num.parseNumLit_digits_small ds hne hds hv, Num.digits_exact ds hne hds hv⟩
+
+/-- … and the decimal text yae prints for an integer below `2^53` reads back as the same double -/
+theorem int_literal_round_trip (n : Nat) (h : n < 2 ^ 53) :
+    Num.parseNumLitBits (Num.renderNumBits (Num.natToBits n)) = some (Num.natToBits n) :=
+  Num.parseNumLitBits_render_roundtrip n h
+
+example : Num.parseNumLitBits "12" = some (Num.natToBits 12) ∧
+    Num.toInt64Bits (Num.natToBits 12) = 12 :=
+  ⟨Num.parseNumLitBits_digits_small ['1', '2'] (by simp) (by decide) (by decide), by decide⟩
+
+/-- **the two float forms**: `i.f`, `iE±x`, `i.fE±x` (`i`, `f`, `x` digit strings) denote
+`Num.decimalToBits m e` with mantissa `m` = the digits of `i` and `f` read as one number and
+decimal exponent `e = ±x - |f|` (`x` capped at 100000): the model's nearest binary64 of `m·10^e`
+(`none` = overflow = rejected).  This is the decomposition; that `decimalToBits` rounds correctly
+is its definition (`packRound` / `ratToBits`), not proved here. -/
+theorem float_literal (ip fp : List Char) (e : Char) (sgn es : List Char)
+    (hip : ∀ x ∈ ip, Num.isDigit x = true) (hne : ip ≠ []) (hfp : ∀ x ∈ fp, Num.isDigit x = true)
+    (he : e = 'e' ∨ e = 'E') (hs : sgn = [] ∨ sgn = ['+'] ∨ sgn = ['-'])
+    (hes : ∀ x ∈ es, Num.isDigit x = true) (hes0 : es ≠ []) :
+    Num.parseNumLitBits (String.ofList (ip ++ '.' :: fp))
+        = Num.decimalToBits (Num.digitsVal (ip ++ fp)) (-(fp.length : Int))
+    ∧ Num.parseNumLitBits (String.ofList (ip ++ e :: (sgn ++ es)))
+        = Num.decimalToBits (Num.digitsVal ip) (Num.signedExp sgn es)
+    ∧ Num.parseNumLitBits (String.ofList (ip ++ '.' :: (fp ++ e :: (sgn ++ es))))
+        = Num.decimalToBits (Num.digitsVal (ip ++ fp)) (Num.signedExp sgn es - (fp.length : Int)) :=
+  Num.parseNumLitBits_float ip fp e sgn es hip hne hfp he hs hes hes0
+
+example : Num.parseNumLitBits "2.50E-3" = Num.decimalToBits 250 (-5) :=
+  (float_literal ['2'] ['5', '0'] 'E' ['-'] ['3'] (by decide) (by decide) (by decide)
+    (by decide) (by decide) (by decide) (by decide)).2.2
+
+/-- FINDINGS (kernel-checked): words of the numeric patterns that `parseNum` rejects, so the
+program is a syntax error: a radix literal `≥ 2^63`, a second fraction group, a second exponent
+group (the patterns `(?:[.][0-9]+)+`, `(?:[eE][-+]?[0-9]+)+` repeat their groups). -/
+theorem numeric_lexemes_rejected :
+    ((reOf .hex).Matches "0x8000000000000000".toList ∧
+      Num.parseNumLitBits "0x8000000000000000" = none) ∧
+    ((reOf .floatA).Matches "1.2.3".toList ∧ Num.parseNumLitBits "1.2.3" = none) ∧
+    ((reOf .floatB).Matches "1e2e3".toList ∧ Num.parseNumLitBits "1e2e3" = none) :=
+  ⟨Num.radix_overflow_instance, ⟨Num.float_reject_instances.1, Num.float_reject_instances.2.1⟩,
+    ⟨Num.float_reject_instances.2.2.1, Num.float_reject_instances.2.2.2⟩⟩
+
+/-! ## string literal decoding (`strconv.Unquote`, the `.str` nud of the parser) -/
+
+/-- **interpreted strings, item by item.**  Every word of the string pattern is `"` items `"`,
+the items being plain characters (not `"`, not `\`), simple escapes `\e` and `\uXXXX`
+(`Num.StrItem`), and it decodes to the concatenation of what the items denote
+(`Num.StrItem.val`: a plain character itself; `\"` `"`, `\\` `\`, `\t` TAB, `\r` CR, `\n` LF,
+`\b` BS, `\f` FF; `\uXXXX` the code point `XXXX`) — or to nothing, when some item denotes nothing:
+a raw newline, `\/`, a surrogate `\uD800..\uDFFF` (`str_literal_rejected`). -/
+theorem str_literal {w : List Char} (h : (reOf .str).Matches w) :
+    ∃ items : List Num.StrItem, (∀ i ∈ items, i.ok) ∧ w = '"' :: Num.srcOf items ++ ['"'] ∧
+      Num.unquote (String.ofList w) = (Num.decodeItems items).map String.ofList :=
+  Num.unquote_of_str_matches h
+
+/-- the items, given directly -/
+theorem str_literal_items (items : List Num.StrItem) (hok : ∀ i ∈ items, i.ok) :
+    Num.unquote (String.ofList ('"' :: Num.srcOf items ++ ['"'])) =
+      (Num.decodeItems items).map String.ofList :=
+  Num.unquote_items items hok
+
+/-- an escape-free body decodes to itself -/
+theorem str_literal_plain (body : List Char) (h : ∀ c ∈ body, c ≠ '"' ∧ c ≠ '\\' ∧ c ≠ '\n') :
+    Num.unquote (String.ofList ('"' :: body ++ ['"'])) = some (String.ofList body) :=
+  Num.unquote_plain body h
+
+/-- one escape in context: what is before and after it decodes independently -/
+theorem str_literal_escape (pre post : List Num.StrItem) (hpre : ∀ i ∈ pre, i.ok)
+    (hpost : ∀ i ∈ post, i.ok) (e c : Char) (he : Num.escVal e = some c) :
+    Num.unquote (String.ofList ('"' :: Num.srcOf pre ++ '\\' :: e :: Num.srcOf post ++ ['"'])) =
+      (do let x ← Num.decodeItems pre; let y ← Num.decodeItems post
+          pure (String.ofList (x ++ c :: y))) :=
+  Num.unquote_esc_context pre post hpre hpost e c he
+
+/-- every escape of the grammar, on the model (kernel-checked) -/
+example : Num.unquote "\"a\\tb\"" = some "a\tb" ∧ Num.unquote "\"a\\rb\"" = some "a\rb" ∧
+    Num.unquote "\"a\\nb\"" = some "a\nb" ∧ Num.unquote "\"a\\\"b\"" = some "a\"b" ∧
+    Num.unquote "\"a\\\\b\"" = some "a\\b" ∧ Num.unquote "\"\\u4e2d\\u0041\"" = some "中A" := by
+  decide
+
+/-- FINDING: a literal of the documented grammar is rejected (syntax error) exactly when it
+contains `\/`, a raw newline or a `\u` surrogate -/
+theorem str_literal_rejected (items : List Num.StrItem) (hok : ∀ i ∈ items, i.ok) :
+    Num.unquote (String.ofList ('"' :: Num.srcOf items ++ ['"'])) = none ↔
+      .plain '\n' ∈ items ∨ .esc '/' ∈ items ∨
+      ∃ h1 h2 h3 h4, .uni h1 h2 h3 h4 ∈ items ∧ 0xD800 ≤ Num.hex4 h1 h2 h3 h4 ∧
+        Num.hex4 h1 h2 h3 h4 ≤ 0xDFFF :=
+  Num.unquote_none_iff items hok
+
+example : Num.unquote "\"\\/\"" = none ∧ Num.unquote "\"a\nb\"" = none ∧
+    Num.unquote "\"\\ud800\"" = none := by decide
+
+/-- **raw strings**: every word of the raw pattern is a body free of back quotes between back
+quotes, and decodes to the body WITHOUT ITS CARRIAGE RETURNS (no escape processing).  "Verbatim"
+holds exactly for bodies without `\r` (`raw_literal_verbatim`). -/
+theorem raw_literal {w : List Char} (h : (reOf .raw).Matches w) :
+    ∃ body, w = '`' :: body ++ ['`'] ∧
+      Num.unquote (String.ofList w) = some (String.ofList (body.filter (· != '\r'))) :=
+  Num.unquote_of_raw_matches h
+
+theorem raw_literal_verbatim (body : List Char) (h : ∀ c ∈ body, c ≠ '`') :
+    Num.unquote (String.ofList ('`' :: body ++ ['`'])) = some (String.ofList body) ↔
+      ∀ c ∈ body, c ≠ '\r' :=
+  Num.unquote_raw_verbatim_iff body h
+
+/-- FINDING (kernel-checked): a raw string loses its carriage returns; nothing else changes -/
+example : Num.unquote "`a\rb`" = some "ab" ∧ Num.unquote "`a\\nb`" = some "a\\nb" := by decide
+
+/-! ## absolute date-time forms -/
+
+/-- **date ↦ day ↦ date**: the model's calendar function returns, for the day number of a date
+of the (proleptic Gregorian) calendar from 0000-03-01 on, that date.  `Civil.dayNumber` counts
+days naively (`Yae/Spec/Civil.lean`). -/
+theorem civil_round_trip (y m d : Nat) (hv : Civil.ValidDate y m d) (hr : Civil.FromMarch0 y m) :
+    civilFromDays (Civil.dayNumber y m d) = ((y : Int), m, d) :=
+  civilFromDays_dayNumber y m d hv hr
+
+/-- **day ↦ date ↦ day**: from day -719468 (0000-03-01) on the model's calendar function returns
+a date of the calendar, whose day number is the day it was given. -/
+theorem day_round_trip (z : Int) (hz : 0 ≤ z + 719468) :
+    (∃ y m d : Nat, civilFromDays z = ((y : Int), m, d) ∧ Civil.ValidDate y m d ∧
+      Civil.FromMarch0 y m) ∧
+    Civil.dayNumber (civilFromDays z).1.toNat (civilFromDays z).2.1 (civilFromDays z).2.2 = z :=
+  ⟨civilFromDays_valid z hz, dayNumber_civilFromDays z hz⟩
+
+set_option maxRecDepth 20000 in
+/-- non-vacuity: 1970-01-01 is day 0, 2024-02-29 is day 19782, 0000-03-01 is day -719468 -/
+example : Civil.ValidDate 2024 2 29 ∧ Civil.FromMarch0 2024 2 ∧ Civil.dayNumber 2024 2 29 = 19782 ∧
+    Civil.dayNumber 1970 1 1 = 0 ∧ Civil.dayNumber 0 3 1 = -719468 ∧
+    civilFromDays 19782 = (2024, 2, 29) := by decide
+
+/-- FINDING (the known limit, `C18.needs_date_from_march_of_year_0`): before 0000-03-01 the law
+fails for the model: the day number of 0000-02-28 is given back as 0000-02-29 -/
+theorem civil_round_trip_fails_before_march_0 :
+    Civil.ValidDate 0 2 28 ∧ civilFromDays (Civil.dayNumber 0 2 28) = (0, 2, 29) := by decide
+
+/-- **an absolute date-time displays as itself**: when `strtotime` (or a time literal; both take
+the answer of `timelib.Strtotime` from the table `Externs.strtotime`) yields, for the text of an
+absolute form, the Unix time `Civil.epochOf y m d hh mm ss` of that date-time in UTC, the value is
+the instant that `Time.String()` displays with exactly these fields. -/
+theorem strtotime_absolute (ext : Externs) (s : String) (y m d hh mm ss : Nat)
+    (hs : ext.strtotime? s = some (Civil.epochOf y m d hh mm ss))
+    (hv : Civil.ValidDate y m d) (hr : Civil.FromMarch0 y m)
+    (h1 : hh < 24) (h2 : mm < 60) (h3 : ss < 60) :
+    ∃ t, applyBuiltin ext .STRTOTIME_STR [.str s] = .ok (.time t, []) ∧
+      t.sec = Civil.epochOf y m d hh mm ss ∧ t.nsec = 0 ∧
+      t.render = pad 4 y ++ "-" ++ pad 2 m ++ "-" ++ pad 2 d ++ " " ++ pad 2 hh ++ ":" ++
+        pad 2 mm ++ ":" ++ pad 2 ss ++ " +0000 UTC" := by
+  refine ⟨TimeV.unix (Civil.epochOf y m d hh mm ss), ?_, rfl, rfl,
+    render_unix_epochOf y m d hh mm ss hv hr h1 h2 h3⟩
+  simp only [applyBuiltin, hs]
+
+/-- the same for a time literal: the parser stores the table's answer in the tree, `eval` turns it
+into the instant -/
+theorem time_literal (fuel : Nat) (dbg : Bool) (env : REnv) (p : Pos) (v : Int) :
+    eval (fuel + 1) dbg env (.time p v) = pure (.time (TimeV.unix v)) := by
+  simp only [eval]
+
+set_option maxRecDepth 20000 in
+/-- non-vacuity: `2024-02-29 12:30:05` -/
+example : ∃ t : TimeV, t = TimeV.unix (Civil.epochOf 2024 2 29 12 30 5) ∧ t.sec = 1709209805 ∧
+    t.render = "2024-02-29 12:30:05 +0000 UTC" := ⟨_, rfl, by decide, by decide⟩
+
+/-- **reading the text back**: in whatever way the text of an instant (`Time.String()`, for an
+instant satisfying `TimeV.TextOK`: displayed date from 0000-03-01 on, whole-minute zone offset,
+nanoseconds below `10^9`) is read as the layout `YYYY-MM-DD hh:mm:ss[.fffffffff] ±hhmm ZONE`
+(`timeL`), the fields denote the instant: seconds by the calendar, nanoseconds by the fraction. -/
+theorem time_text_read_back (t : TimeV) (ht : t.TextOK) {Y M D hh mm ss ns oh om : Nat} {neg : Bool}
+    {zone : List Char} (hns : ns < 1000000000) (hom : om < 100)
+    (h : t.render.toList = timeL Y M D hh mm ss ns neg oh om zone) :
+    t.sec = instantOf Y M D hh mm ss (offsetOf neg oh om) ∧ t.nsec = ns :=
+  read_back t ht hns hom h
+
+/-- **reading the rendered date-time back gives the instant**: `readTime` reads the layout of
+`Time.String()` and computes seconds and nanoseconds from the fields by the calendar of
+`Yae/Spec/Civil.lean`; on the text of an instant (displayed date from 0000-03-01 on, whole-minute
+zone offset below 100 hours, nanoseconds below `10^9`) it returns the instant. -/
+theorem time_text_reader (t : TimeV) (ht : t.TextOK) (hoff : t.offset.natAbs < 360000) :
+    readTime t.render = some (t.sec, t.nsec) :=
+  readTime_render t ht hoff
+
+set_option maxRecDepth 20000 in
+/-- non-vacuity of the reader, and of its hypotheses -/
+example : readTime "2024-02-29 12:30:05.25 +0200 CEST" = some (1709202605, 250000000) ∧
+    (⟨1709202605, 250000000, 7200, "CEST"⟩ : TimeV).render = "2024-02-29 12:30:05.25 +0200 CEST" := by
+  decide
+example : (⟨1709202605, 250000000, 7200, "CEST"⟩ : TimeV).TextOK :=
+  ⟨by decide, by decide, by decide, by decide⟩
+
+/-- **a time literal** `'body'`: the parser looks `body` (the lexeme without its two quotes) up in
+the table of `timelib.Strtotime`; with the answer `Civil.epochOf …` for an absolute form the
+literal evaluates to the instant displayed with exactly these fields. -/
+theorem time_literal_absolute (env : PEnv) (tok : Token) (body : String) (y m d hh mm ss : Nat)
+    (hlex : tok.lexeme = "'" ++ body ++ "'")
+    (hs : env.times.lookup body = some (Civil.epochOf y m d hh mm ss))
+    (hv : Civil.ValidDate y m d) (hr : Civil.FromMarch0 y m)
+    (h1 : hh < 24) (h2 : mm < 60) (h3 : ss < 60) (fuel : Nat) (dbg : Bool) (renv : REnv) :
+    ∃ e t, env.timeLit tok = .ok e ∧ eval (fuel + 1) dbg renv e = pure (.time t) ∧
+      t.sec = Civil.epochOf y m d hh mm ss ∧ t.nsec = 0 ∧
+      t.render = pad 4 y ++ "-" ++ pad 2 m ++ "-" ++ pad 2 d ++ " " ++ pad 2 hh ++ ":" ++
+        pad 2 mm ++ ":" ++ pad 2 ss ++ " +0000 UTC" :=
+  ⟨_, _, timeLit_quoted env tok body _ hlex hs, time_literal fuel dbg renv tok.pos _, rfl, rfl,
+    render_unix_epochOf y m d hh mm ss hv hr h1 h2 h3⟩
+
+/-- … and the fields `TimeV.render` prints are a date of the calendar and a time of day -/
+theorem time_text_fields (t : TimeV) (h : -62162035200 ≤ t.sec + t.offset) :
+    ∃ y m d : Nat, civilFromDays t.days = ((y : Int), m, d) ∧ Civil.ValidDate y m d ∧
+      Civil.FromMarch0 y m ∧ t.sod < 86400 ∧
+      t.sec = instantOf y m d (t.sod / 3600) (t.sod % 3600 / 60) (t.sod % 60) t.offset := by
+  obtain ⟨y, m, d, h1, h2, h3, h4⟩ := sec_of_displayed t h
+  exact ⟨y, m, d, h1, h2, h3, t.sod_lt, h4⟩
+
 #print axioms eq_num
 #print axioms ne_num
 #print axioms ne_num_eq_not_eq_num
@@ -202,5 +673,45 @@ theorem get_maybe (ext : Externs) (el : Ty) (x dflt : Val) :
 #print axioms key?_isSome_of_prim
 #print axioms get_list
 #print axioms get_maybe
+
+#print axioms len_law
+#print axioms len_runes
+#print axioms string_builtin
+#print axioms string_prim
+#print axioms string_list
+#print axioms string_obj
+#print axioms string_map
+#print axioms string_eq_String
+#print axioms Yae.string_not_quoted
+#print axioms Yae.map_keys_stay_quoted
+#print axioms Yae.obj_order_differs
+#print axioms Yae.maybe_fn_differ
+#print axioms eq_ne_exact
+#print axioms time_cmp
+#print axioms time_cmp_ns
+#print axioms radix_literal
+#print axioms radix_literal_exact
+#print axioms radix_lexemes
+#print axioms int_literal
+#print axioms int_literal_exact
+#print axioms int_literal_round_trip
+#print axioms float_literal
+#print axioms numeric_lexemes_rejected
+#print axioms str_literal
+#print axioms str_literal_items
+#print axioms str_literal_plain
+#print axioms str_literal_escape
+#print axioms str_literal_rejected
+#print axioms raw_literal
+#print axioms raw_literal_verbatim
+#print axioms civil_round_trip
+#print axioms day_round_trip
+#print axioms civil_round_trip_fails_before_march_0
+#print axioms strtotime_absolute
+#print axioms time_literal
+#print axioms time_text_read_back
+#print axioms time_text_reader
+#print axioms time_literal_absolute
+#print axioms time_text_fields
 
 end Yae.C04
